@@ -52,6 +52,7 @@ type worker[T any, JobType iJob[T]] struct {
 	tickerStops     []chan struct{}
 	mx              sync.RWMutex
 	lifecycleMx     sync.Mutex // serializes Stop and Restart
+	startMx         sync.Mutex // serializes start(): checking that the worker is Initiated and making it Running is one step
 	ctx             context.Context
 	cancel          context.CancelFunc
 	Configs         configs
@@ -591,6 +592,12 @@ func (w *worker[T, JobType]) stopAndRemoveAllWorkers() {
 }
 
 func (w *worker[T, JobType]) start() error {
+	// Two callers (a Resume next to the start() inside Restart, two first Bind calls) must not both
+	// find the worker Initiated: each would spawn an event loop and an initial pool worker.
+	// The mutex is released after the deferred status.Store(running) below.
+	w.startMx.Lock()
+	defer w.startMx.Unlock()
+
 	// only a worker that has not been started yet (or has been reset by Restart) can be started;
 	// binding another queue to a paused or stopped worker must not change its state
 	if w.status.Load() != initiated {
